@@ -142,8 +142,11 @@ Definition new_log_from (id key : N) (s : sortfn) (deny : list N) (entries : oma
    clock of such a log starts at 0 - NewLog looks at LogOptions.Heads only, before it finds the heads. *)
 Definition pick (m : omap) (keep : list hash) : list entry :=
   flat_map (fun h => match oget m h with Some e => [e] | None => [] end) (uniq keep).
-Definition open_from (src : log) (keep : list hash) (id key : N) (s : sortfn) (deny : list N) : log :=
-  new_log_from id key s deny (from_entries (pick (l_entries src) keep)) [].
+Definition open_from (src : log) (keep hh : list hash) (id key : N) (s : sortfn) (deny : list N) : log :=
+  new_log_from id key s deny (from_entries (pick (l_entries src) keep)) (pick (l_entries src) hh).
+(* [hh]: LogOptions.Heads, named by hash among the source's entries (empty: NewLog finds the heads itself).
+   NewLog installs the head objects it is given - it does not look them up among LogOptions.Entries - and
+   starts the clock at their newest time; this is what NewFromMultihash does with the heads of the manifest *)
 (* [id]: LogOptions.ID - the loaders take it from the caller's options, so a log may be opened under an id
    other than the one its entries carry (such a log is outside the invariants: POpen.v [owf]) *)
 
